@@ -42,7 +42,8 @@ def n(run, quick, thorough):
 
 def c01(run):
     return engine_prop(run, ["MC_rules.cfg"],
-        [dict(profile="rules", n=n(run, 60, 800), extra=["-mixed-events"]),
+        [dict(profile="index", n=n(run, 60, 800)),
+         dict(profile="rules", n=n(run, 40, 600), extra=["-mixed-events"]),
          dict(profile="parents", n=n(run, 30, 400), extra=["-mixed-events"])],
         "seeded random histories of AddRule/RemRule/AddFact-on-rule-id/EnableRule/Clear/ProcessEvent/SearchRules/ListRules "
         "(one location; three locations with changing parents) on indexed and linear state; TLC compares FindRules' "
@@ -79,7 +80,8 @@ def c09(run):
 
 def c10(run):
     return engine_prop(run, ["MC_rules.cfg"],
-        [dict(profile="rules", n=n(run, 50, 600), label="rules-lifecycle"),
+        [dict(profile="index", n=n(run, 30, 400), label="index-lifecycle"),
+         dict(profile="rules", n=n(run, 40, 600), label="rules-lifecycle"),
          dict(profile="lifecycle", n=n(run, 40, 500))],
         "seeded histories of add/overwrite/remove/disable/enable/reload/location-disable with events (one location and "
         "parent/child), indexed and linear; TLC checks which rules fire for every event and the class of every refusal")
